@@ -1,0 +1,26 @@
+//go:build !verif
+
+package disk
+
+// Empty counterparts of the verification hooks in verif_on.go (build tag
+// "verif"). They are trivially inlinable and have no effect.
+
+import "container/list"
+
+func (c *SizedLRU) verifAdd(key string, value lruItem, ok *bool) {}
+func (c *SizedLRU) verifGet(key string)                          {}
+func (c *SizedLRU) verifReserve(size int64) func()               { return verifNop }
+func (c *SizedLRU) verifUnreserve(size int64) func()             { return verifNop }
+func (c *SizedLRU) verifTot(tot uint64)                          {}
+func (c *SizedLRU) verifRemove(e *list.Element)                  {}
+func (c *SizedLRU) verifRemoved(key string)                      {}
+func (c *SizedLRU) verifQueued(e *entry)                         {}
+func (c *SizedLRU) verifEvict(ev string, kv *entry)              {}
+func (c *SizedLRU) verifGate(point string)                       {}
+func (c *diskCache) verifGate(point string)                      {}
+func (c *diskCache) verifFileEv(ev string, path string)          {}
+func (c *diskCache) verifReq(op string, key string, size int64, rErr *error) func() {
+	return verifNop
+}
+
+func verifNop() {}
